@@ -27,6 +27,22 @@ class HarnessError(Exception):
 
 
 CHILD_TIMEOUT = 120
+LINES = set()            # (module file name, line) reached under VERIF_TRACE
+
+
+def _tracer_for(prefix, sink):
+    def local(frame, event, arg):
+        if event == 'line':
+            sink.add((frame.f_code.co_filename, frame.f_lineno))
+        return local
+
+    def glob(frame, event, arg):
+        fn = frame.f_code.co_filename
+        if fn.startswith(prefix):
+            sink.add((fn, frame.f_lineno))
+            return local
+        return None
+    return glob
 
 
 def in_child(fn, args, timeout=CHILD_TIMEOUT):
@@ -42,10 +58,18 @@ def in_child(fn, args, timeout=CHILD_TIMEOUT):
             # when re-armed in a forked grandchild)
             signal.signal(signal.SIGALRM, signal.SIG_DFL)
             signal.alarm(int(timeout))
+            sink = None
+            if os.environ.get('VERIF_TRACE'):
+                import mininec
+                sink = set()
+                sys.settrace(_tracer_for(os.path.dirname(os.path.abspath(mininec.__file__)), sink))
             try:
                 res = ('ok', fn(*args))
             except BaseException:
                 res = ('err', traceback.format_exc())
+            if sink is not None:
+                sys.settrace(None)
+                res = res + (sink | LINES,)
             with os.fdopen(w, 'wb') as f:
                 pickle.dump(res, f, protocol=pickle.HIGHEST_PROTOCOL)
         except BaseException:
@@ -58,7 +82,10 @@ def in_child(fn, args, timeout=CHILD_TIMEOUT):
     _, status = os.waitpid(pid, 0)
     if not data:
         raise HarnessError('child died without result (status %s) in %s' % (status, fn.__name__))
-    kind, val = pickle.loads(data)
+    got = pickle.loads(data)
+    kind, val = got[0], got[1]
+    if len(got) > 2:
+        LINES.update(got[2])
     if kind == 'err':
         raise HarnessError('child raised in %s:\n%s' % (fn.__name__, val))
     return val
@@ -91,24 +118,35 @@ def _hist(plan, start, disk, pos, apif):
 # ------------------------------------------------------------------- clauses
 
 def api_clause(prior_ops, multi_task, had_other):
-    """Name the clause from the history that preceded an observation."""
-    kinds = [o[0] for o in prior_ops]
-    fs = [o[1] for o in prior_ops if o[0] == 'SET_F']
-    ncomp = kinds.count('COMPUTE')
-    # computed at another frequency before?
+    """Name the clause from the history that preceded an observation.
+
+    H2: something was evaluated at another frequency before (a compute, a
+        field request or an observation that reads load impedances);
+    H3: more than one field request (order / repetition / other parameters);
+    H4: computed twice, or a report / option list was rendered before;
+    H7: nothing of the above in this task, but another task ran before;
+    H5: no history at all: a fresh object in a process that only differs in
+        its environment (hash assignment, clock, memory layout)."""
     f = 0
-    comp_f = set()
+    touched = set()
+    ncomp = nfield = nobs = 0
     for o in prior_ops:
-        if o[0] == 'SET_F':
+        k = o[0]
+        if k == 'SET_F':
             f = o[1]
-        elif o[0] == 'COMPUTE':
-            comp_f.add(f)
-    if len(comp_f - {f}) > 0:
+        else:
+            touched.add(f)
+            if k == 'COMPUTE':
+                ncomp += 1
+            elif k in ('FAR', 'NEAR'):
+                nfield += 1
+            elif k.startswith('OBS'):
+                nobs += 1
+    if touched - {f}:
         return 'H2'
-    nfield = kinds.count('FAR') + kinds.count('NEAR')
     if nfield > 1:
         return 'H3'
-    if ncomp > 1 or any(k.startswith('OBS') for k in kinds) or fs:
+    if ncomp > 1 or nobs:
         return 'H4'
     if multi_task and had_other:
         return 'H7'
@@ -120,6 +158,7 @@ def api_clause(prior_ops, multi_task, had_other):
 def run_world(plan, keep=False):
     t0 = time.time()
     C.reset_stats()
+    LINES.clear()
     tasks = plan['tasks']
     # ---- history
     epochs = []
@@ -312,6 +351,8 @@ def run_world(plan, keep=False):
                oracle_evals=len(memo), sections=C.STATS['sections'],
                ulp_diffs=C.STATS['ulp_diffs'], steps=len(obs),
                epochs=len(epochs), wall=time.time() - t0)
+    if LINES:
+        res['lines'] = set((os.path.basename(f), l) for f, l in LINES)
     if keep:
         res['log'] = log
         res['oracle_log'] = sorted(oracle_log)
